@@ -2,3 +2,4 @@ import PyTreesModel.Status
 import PyTreesModel.Tree
 import PyTreesModel.Names
 import PyTreesModel.Blackboard
+import PyTreesModel.Edit
